@@ -30,16 +30,50 @@ LexLessFrom(a, b, i) ==
   ELSE LexLessFrom(a, b, i + 1)
 LexLess(a, b) == LexLessFrom(a, b, 1)
 
+\* Element comparison.  flt = FALSE: the elements are totally ordered integers.  flt = TRUE: IEEE floating point,
+\* where value code 2 stands for -0.0 (equal to code 0 = +0.0 although the bytes differ) and code 3 for a NaN
+\* (not equal to itself, not ordered with anything); every other code is the number itself.
+NumOf(flt, x)      == IF flt /\ x = 2 THEN 0 ELSE x
+IsNaN(flt, x)      == flt /\ x = 3
+ElemEq(flt, x, y)  == ~IsNaN(flt, x) /\ ~IsNaN(flt, y) /\ NumOf(flt, x) = NumOf(flt, y)
+ElemLt(flt, x, y)  == ~IsNaN(flt, x) /\ ~IsNaN(flt, y) /\ NumOf(flt, x) < NumOf(flt, y)
+ElemCmp3(flt, x, y) == IF IsNaN(flt, x) \/ IsNaN(flt, y) THEN "un"
+                       ELSE IF NumOf(flt, x) < NumOf(flt, y) THEN "lt" ELSE IF NumOf(flt, y) < NumOf(flt, x) THEN "gt" ELSE "eq"
+SeqEq(flt, a, b)   == Len(a) = Len(b) /\ \A i \in 1..Len(a) : ElemEq(flt, a[i], b[i])
+\* std::lexicographical_compare with the element's operator<
+RECURSIVE LexLessFromF(_, _, _, _)
+LexLessFromF(flt, a, b, i) ==
+  IF i > Len(b) THEN FALSE
+  ELSE IF i > Len(a) THEN TRUE
+  ELSE IF ElemLt(flt, a[i], b[i]) THEN TRUE
+  ELSE IF ElemLt(flt, b[i], a[i]) THEN FALSE
+  ELSE LexLessFromF(flt, a, b, i + 1)
+LexLessF(flt, a, b) == LexLessFromF(flt, a, b, 1)
+\* std::lexicographical_compare_three_way: the first pair of elements that is not equivalent decides (possibly "unordered")
+RECURSIVE Cmp3From(_, _, _, _)
+Cmp3From(flt, a, b, i) ==
+  IF i > Len(a) /\ i > Len(b) THEN "eq"
+  ELSE IF i > Len(a) THEN "lt"
+  ELSE IF i > Len(b) THEN "gt"
+  ELSE LET c == ElemCmp3(flt, a[i], b[i]) IN IF c # "eq" THEN c ELSE Cmp3From(flt, a, b, i + 1)
+Cmp3(flt, a, b) == Cmp3From(flt, a, b, 1)
+
 \* the bitmask the driver reports for  == != < <= > >=  (1 2 4 8 16 32)
-\* and, when the three-way operator exists, lt eq gt (64 128 256) + marker 512
-CmpMask(a, b, threeway) ==
-  LET eq == a = b
-      lt == LexLess(a, b)
-      gt == LexLess(b, a)
+\* and, when the three-way operator exists, lt eq gt (64 128 256) + marker 512.
+\* std::vector before C++20:  a <= b is !(b < a), a >= b is !(a < b), a > b is b < a (lexicographical_compare);
+\* from C++20 the four relational operators are rewritten from <=> (an unordered result makes all four false).
+CmpMaskF(flt, a, b, threeway) ==
+  LET eq == SeqEq(flt, a, b)
+      c3 == Cmp3(flt, a, b)
+      lt == IF threeway THEN c3 = "lt" ELSE LexLessF(flt, a, b)
+      gt == IF threeway THEN c3 = "gt" ELSE LexLessF(flt, b, a)
+      le == IF threeway THEN c3 \in {"lt", "eq"} ELSE ~gt
+      ge == IF threeway THEN c3 \in {"gt", "eq"} ELSE ~lt
   IN  (IF eq THEN 1 ELSE 0) + (IF ~eq THEN 2 ELSE 0) + (IF lt THEN 4 ELSE 0)
-    + (IF ~gt THEN 8 ELSE 0) + (IF gt THEN 16 ELSE 0) + (IF ~lt THEN 32 ELSE 0)
-    + (IF threeway THEN (IF lt THEN 64 ELSE 0) + (IF eq THEN 128 ELSE 0)
-                        + (IF gt THEN 256 ELSE 0) + 512 ELSE 0)
+    + (IF le THEN 8 ELSE 0) + (IF gt THEN 16 ELSE 0) + (IF ge THEN 32 ELSE 0)
+    + (IF threeway THEN (IF c3 = "lt" THEN 64 ELSE 0) + (IF c3 = "eq" THEN 128 ELSE 0)
+                        + (IF c3 = "gt" THEN 256 ELSE 0) + 512 ELSE 0)
+CmpMask(a, b, threeway) == CmpMaskF(FALSE, a, b, threeway)
 
 RemoveIf(s, P(_)) == SelectSeq(s, LAMBDA x : ~P(x))
 CountIf(s, P(_)) == Len(s) - Len(RemoveIf(s, P))
